@@ -44,6 +44,7 @@ type vfGccStep struct {
 	Size int    `json:"size"`
 	Pat  string `json:"pat"`
 	Loss int    `json:"loss"`
+	Pair bool   `json:"pair"` // fb: one compound packet - this report followed by the previous one again
 	Ms   int    `json:"ms"`
 }
 
@@ -63,6 +64,9 @@ type vfGccScript struct {
 	// Loopback: the stream's transport acknowledges every packet at once - its writer feeds an RFC 8888 report about the
 	// packet to WriteRTCP synchronously, from inside the Write the pacer is performing (an in-memory loopback transport)
 	Loopback bool `json:"loopback"`
+	// CbWait: a rate consumer that is busy while feedback is being fed - the OnTargetBitrateChange callback does not return
+	// before every WriteRTCP call in progress has returned (e.g. it hands the rate to the loop that also feeds the feedback)
+	CbWait bool `json:"cbwait"`
 	// level conc
 	Feeders    int `json:"feeders"`
 	Writes     int `json:"writes"`
@@ -573,7 +577,11 @@ func vfGccRunSeq(sc *vfGccScript, lg *vfGccLog, d *vfGccDriver) {
 		case "send":
 			r.send(s)
 		case "fb":
+			before := r.fb.prev
 			pkts := r.fb.build(s.Pat, s.Loss)
+			if s.Pair && before != nil {
+				pkts = append(append([]rtcp.Packet{}, pkts...), before...)
+			}
 			res := "ok"
 			vfGccWithin("WriteRTCP", func() { res = d.feed(pkts) })
 			r.lg.add(vfM{"a": "fb", "pat": s.Pat, "loss": s.Loss, "n": len(pkts), "res": res})
